@@ -294,7 +294,7 @@ Proof.
   injection Hf as <-. simpl tshape. simpl tdata.
   set (cur := chunk n B _).
   assert (Hrowx : forall r, (r < B)%nat -> length (nth r cur []) = n).
-  { intros r Hr. unfold cur. apply chunk_row_length; [exact Hr|lia]. }
+  { intros r Hr. unfold cur. apply chunk_row_length; [exact Hr|apply Nat.eq_le_incl; symmetry; exact Hx]. }
   assert (Hrows : forall row, In row (direct_map RN cur (r_w RN c) (r_b RN c)) -> length row = n).
   { intros row Hin. unfold direct_map in Hin. apply in_map_iff in Hin. destruct Hin as [xr [<- Hxr]].
     apply (In_nth _ _ []) in Hxr. destruct Hxr as [r [Hr <-]]. unfold cur in Hr. rewrite chunk_length in Hr.
@@ -314,6 +314,6 @@ Proof.
       rewrite (map2_nth _ _ _ _ 0 0) by (rewrite ?map2_length; lia).
       rewrite (map2_nth _ _ _ _ 0 0) by lia.
       rewrite Hx'. reflexivity.
-    + rewrite (map2_nth _ _ _ _ 0 0) by lia.
-      rewrite Hx'. rn_simpl. lra.
+    + rn_simpl. rewrite (map2_nth _ _ _ _ 0 0) by lia.
+      rewrite Hx'. lra.
 Qed.
